@@ -126,4 +126,20 @@ def CacheG.takeRet (c : CacheG T) (k : Nat) (l : Load) : TakeRet :=
     | .panicValue => .panics
     | .goexit => .exits
 
+/-! ### Go `int` width (round 5c) -/
+
+/-- two's-complement wrap-around of a 64-bit Go `int` -/
+def wrap64 (x : Int) : Int := (x + 9223372036854775808) % 18446744073709551616 - 9223372036854775808
+
+/-- `r.index++; if r.index >= rlen<<1 { r.index -= rlen }` as the machine computes it: every intermediate result wrapped
+to 64 bits -/
+def ringAddIndexW (index rlen : Int) : Int :=
+  if wrap64 (index + 1) ≥ wrap64 (rlen * 2) then wrap64 (wrap64 (index + 1) - rlen) else wrap64 (index + 1)
+
+/-! ### RollingWindow with a negative interval (round 5c; outside the property: `interval ≥ 1` is a hypothesis)
+
+`span()`: `int(timex.Since(lastTime) / interval)` truncates towards zero, so with `interval = -a < 0` and the clock not
+behind `lastTime` the quotient is `-(elapsed / a) ≤ 0`; the range check `0 <= offset` then lets only 0 through. -/
+def RW.spanNeg (lastTime now a size : Nat) : Nat := if now - lastTime < a then 0 else size
+
 end GoZero.C16
